@@ -12,6 +12,8 @@ EXPLANATION = ("C03: the encoder's structure is compared with the Source Map v3 
 NOT_DECIDED = "that an independent v3 reader decodes exactly the map's tokens for all maps (value-level)."
 
 RULES = {
+    # the data URL the encoder side produces is standard padded base64 behind the literal preamble
+    "C03.R8": lambda ctx: __import__("rules.detrules", fromlist=["x"]).data_url_pairing(ctx, "C03.R8"),
     "C03.R7": lambda ctx: __import__("rules.bldrules", fromlist=["x"]).cache_coherence(ctx, "C03.R7"),
     "C03.R6": lambda ctx: encrules.whole_document(ctx, "C03.R6"),
     "C03.RL": lambda ctx: __import__("rules.common", fromlist=["x"]).loop_exit_rule(ctx, "C03.RL", {'encoder::serialize_mappings': 1, 'encoder::encode_rmi': 0}),
